@@ -20,8 +20,8 @@ func init() {
 		Title: "every destructive filesystem call of the generator is confined to generator-owned names",
 		Text: "Inventory (typed AST, all generator packages: cmd, codegen/*, module root) of calls to os.Remove, RemoveAll, Rename, Truncate, WriteFile, Create, OpenFile, Chmod, ioutil.WriteFile. Each must match a row: " +
 			"(owned) the path is filepath.Join(…, last) whose last component is <x>+GeneratedFileSuffix, a constant ending in GeneratedFileSuffix, or ManifestFile — through local single definitions and, for a path parameter, at every call site of the function; " +
-			"(cleaner-file) os.Remove of join(dir, entry.Name()) dominated by HasSuffix(entry.Name(), GeneratedFileSuffix) on the not-IsDir branch; (empty-dir) os.Remove(dir) dominated by len(ReadDir(dir)) == 0; " +
-			"(temp) os.Remove(f.Name()) of a file obtained from os.CreateTemp in the same function.  RemoveAll, Rename, Truncate, Chmod are forbidden.",
+			"(cleaner-file) os.Remove of join(dir, core.NameOf(entry)) dominated by HasSuffix(core.NameOf(entry), GeneratedFileSuffix) on the not-IsDir branch; (empty-dir) os.Remove(dir) dominated by len(ReadDir(dir)) == 0; " +
+			"(temp) os.Remove(core.NameOf(f)) of a file obtained from os.CreateTemp in the same function.  RemoveAll, Rename, Truncate, Chmod are forbidden.",
 		Props: []string{"C20"},
 		// 8 and 6 sites today; the floor leaves room for merging the duplicated "remove the directory if it is empty" block
 		Floor: map[string]int{"v2": 6, "root": 4},
@@ -301,7 +301,7 @@ func runR201(c *core.Ctx) {
 					kind := ""
 					switch f.Pkg().Path() {
 					case "os":
-						kind = destructiveOS[f.Name()]
+						kind = destructiveOS[core.NameOf(f)]
 					case "io/ioutil":
 						if core.NameOf(f) == "WriteFile" {
 							kind = "path0"
@@ -312,7 +312,7 @@ func runR201(c *core.Ctx) {
 					}
 					sites++
 					fn := core.DeclName(fd)
-					construct := fmt.Sprintf("%s.%s #%d", f.Pkg().Name(), f.Name(), ordinalOfCallee(inf, fd, call, f))
+					construct := fmt.Sprintf("%s.%s #%d", f.Pkg().Name(), core.NameOf(f), ordinalOfCallee(inf, fd, call, f))
 					if kind == "forbidden" {
 						c.Bad(rel, fn, construct, call.Pos(), "forbidden call: it can destroy files the generator does not own")
 						return true
@@ -421,7 +421,7 @@ func fromCreateTemp(inf *types.Info, fd *ast.FuncDecl, obj types.Object) bool {
 	return found
 }
 
-// joinOfEntryName: obj := filepath.Join(dir, entry.Name()) -> entry object.
+// joinOfEntryName: obj := filepath.Join(dir, core.NameOf(entry)) -> entry object.
 func joinOfEntryName(inf *types.Info, fd *ast.FuncDecl, obj types.Object) types.Object {
 	var entry types.Object
 	ast.Inspect(fd.Body, func(n ast.Node) bool {
@@ -533,7 +533,7 @@ func runR203(c *core.Ctx) {
 	if len(fd.Body.List) > 0 {
 		if ifs, ok := fd.Body.List[0].(*ast.IfStmt); ok {
 			if call, ok := core.Unparen(ifs.Cond).(*ast.CallExpr); ok {
-				if cf := core.Callee(tinf, call); cf != nil && strings.Contains(cf.Name(), "Custom") {
+				if cf := core.Callee(tinf, call); cf != nil && strings.Contains(core.NameOf(cf), "Custom") {
 					for _, s := range ifs.Body.List {
 						if r, ok := s.(*ast.ReturnStmt); ok && len(r.Results) == 1 && core.IsNil(tinf, r.Results[0]) {
 							okNil = true
@@ -589,7 +589,7 @@ func cleanerComponent(c *core.Ctx, rel string, root *types.Func) []*ast.FuncDecl
 	return out
 }
 
-// descent is a call, somewhere in the cleaner, that hands a directory entry (join(dir, entry.Name())) to a function of
+// descent is a call, somewhere in the cleaner, that hands a directory entry (join(dir, core.NameOf(entry))) to a function of
 // the cleaner: the recursion into a sub-directory.
 type descent struct {
 	in     *ast.FuncDecl
